@@ -44,17 +44,19 @@ MISSPELL = {"class": ["clas", "Class", "klass"], "namespace": ["namespce", "Name
 PROBES = ["accepted_after_corruption", "rejected_after_corruption", "multi_file_matlab",
           "file_ends_in_line_comment_no_newline", "prior_outputs_present", "read_error_injected",
           "eio_mid_read", "truncated_inside_declaration", "must_reject_case", "valid_input_accepted",
-          "o4_reference_compared", "nonascii_input"]
+          "o4_reference_compared", "nonascii_input", "failed_after_parsing"]
 
 
 def batches(tier):
     if tier == "thorough":
         return [dict(name="corrupt", runs=150000, budget_s=800, per_run_timeout=120),
                 dict(name="valid", runs=30000, budget_s=250, per_run_timeout=120),
-                dict(name="readerr", runs=20000, budget_s=120, per_run_timeout=120)]
+                dict(name="readerr", runs=20000, budget_s=120, per_run_timeout=120),
+                dict(name="latefail", runs=30000, budget_s=200, per_run_timeout=120)]
     return [dict(name="corrupt", runs=4000, budget_s=50, per_run_timeout=90),
             dict(name="valid", runs=600, budget_s=15, per_run_timeout=90),
-            dict(name="readerr", runs=400, budget_s=10, per_run_timeout=90)]
+            dict(name="readerr", runs=400, budget_s=10, per_run_timeout=90),
+            dict(name="latefail", runs=900, budget_s=15, per_run_timeout=90)]
 
 
 def describe():
@@ -90,7 +92,10 @@ def _assert_no_comment_openers(lexemes):
             raise AssertionError("generator emitted a comment opener inside lexeme %r" % lx)
 
 
-def corrupt(lexemes, starts, tape, n):
+LATE_KINDS = [("drop-default", 3), ("rename-typedef-target", 1)]
+
+
+def corrupt(lexemes, starts, tape, n, late=False):
     """apply n token-level corruptions; returns (lexemes, [kinds], must_reject, cut_bytes_fraction)"""
     lex = list(lexemes)
     kinds = []
@@ -100,9 +105,10 @@ def corrupt(lexemes, starts, tape, n):
     for _ in range(n):
         if not lex:
             break
-        kind = tape.wpick([("delete", 4), ("duplicate", 3), ("swap", 3), ("stray", 3), ("del-bracket", 2),
+        kind = tape.wpick(LATE_KINDS, "late-corruption") if late else \
+            tape.wpick([("delete", 4), ("duplicate", 3), ("swap", 3), ("stray", 3), ("del-bracket", 2),
                            ("trunc-lex", 2), ("trunc-bytes", 2), ("dup-block", 1), ("stray-toplevel", 2),
-                           ("misspell", 2), ("stray-qualifier", 1.5), ("sig-tail", 2), ("member-head", 1.5)],
+                           ("misspell", 2), ("stray-qualifier", 1.5), ("sig-tail", 2), ("member-head", 1.5), ("drop-default", 1.5)],
                           "corruption")
         i = tape.choose(len(lex), "pos")
         if kind == "delete":
@@ -123,6 +129,34 @@ def corrupt(lexemes, starts, tape, n):
                 lex.insert(k + 1 if (lex[k] == "typedef" or q != "const") else k, q)
             else:
                 lex.insert(i, q)
+        elif kind == "rename-typedef-target":
+            # the typedef now names a template that does not exist: parses, fails at instantiation
+            idx = [k for k, t in enumerate(lex) if t == "typedef" and k + 1 < len(lex)]
+            if idx:
+                k = idx[tape.choose(len(idx), "which-typedef")]
+                lex[k + 1] = lex[k + 1] + "Missing"
+            else:
+                kind = "noop"
+        elif kind == "drop-default":
+            # the `= value` of one argument is lost (two adjacent tokens): the text still parses, but a
+            # defaulted argument may now precede a non-defaulted one, which only a generator validates
+            idx = [k for k, t in enumerate(lex) if t == "=" and k + 2 < len(lex) and lex[k + 2] in (",", ")")]
+            # those whose argument list has an earlier default as well (dropping it breaks the ordering rule)
+            later = []
+            for k in idx:
+                j = k - 1
+                while j >= 0 and lex[j] not in ("(", ")", ";", "{", "}"):
+                    if lex[j] == "=":
+                        later.append(k)
+                        break
+                    j -= 1
+            if later and (late or tape.bool(0.7, "ordering-breaking-default")):
+                idx = later
+            if idx:
+                k = idx[tape.choose(len(idx), "which-default")]
+                del lex[k:k + 2]
+            else:
+                kind = "noop"
         elif kind == "sig-tail":
             # a stray keyword/qualifier between the ')' that closes a signature and its ';' (the place
             # where the member kinds' grammar rules differ: only methods and operators take `const`)
@@ -193,17 +227,30 @@ def gen_case(tape, batch):
     case = {"entry": entry, "inputs": {}, "files": [], "predirs": [R + "/src", R + "/build"]}
     nfiles = 1 + (tape.small(2, "n-files", p=0.5) if ml else 0)
     ncorr = 0
+    late = batch == "latefail"
     if batch == "corrupt":
         ncorr = 1 + tape.weighted([5, 3, 1], "n-corruptions")
+    elif late:
+        # input that PARSES but fails in a later pipeline stage (instantiation / generation): one
+        # corruption that keeps the text in the grammar, in a file that has completed namespaces and
+        # classes before the failing declaration
+        ncorr = 1
     victim = tape.choose(nfiles, "victim") if ncorr else -1
     must_reject = False
     kinds_all = []
     for k in range(nfiles):
-        m, lex, starts = G.generate(tape, "matlab" if ml else "pybind", tag="Q" + "ABC"[k], max_decls=4)
+        m, lex, starts = G.generate(tape, "matlab" if ml else "pybind", tag="Q" + "ABC"[k], max_decls=4,
+                                    force_ns=late, ns_pool=["gtsam", "nav"] if late else None)
+        if late and k == victim:
+            # a trailing function with two defaulted arguments (the last one is what may lose its default)
+            f = G.Func("global", "lateQ" + "ABC"[k], G.Ret(G.Ty("void")),
+                       [G.Arg(G.Ty("int"), "a", "1"), G.Arg(G.Ty("double"), "b", "0.5")])
+            m.content.append(f)
+            lex, starts = m.lexemes()
         _assert_no_comment_openers(lex)
         cut = None
         if k == victim:
-            lex, kinds, must_reject, cut = corrupt(lex, starts, tape, ncorr)
+            lex, kinds, must_reject, cut = corrupt(lex, starts, tape, ncorr, late=late)
             kinds_all = kinds
         text = G.render(lex, tape)
         if cut is not None:
@@ -426,6 +473,8 @@ def run_case(tape, batch):
                                            "location: %s" % bad[:6]})
     else:
         w.probe("rejected_after_corruption" if case["corruptions"] else "rejected")
+        if hook.calls:
+            w.probe("failed_after_parsing")      # the parser accepted the text; a later stage raised
         if batch == "valid":
             # not a C07 matter (a rejected valid file is loud); recorded so that a generator that leaves
             # the dialect is noticed
